@@ -26,18 +26,21 @@ RULE = ("problem families with a unique known solution (tanh contraction, strong
         "alpha, max_rank, msize/beta/lmbda, step/gamma. Non-trivial = the user function was evaluated at least 3 times (>= 2 iterations) and y0 "
         "differs from the reference solution by more than 1e-6; distinct by canonical case.")
 ASSUMPTIONS = [
-    "silence = no ConvergenceWarning and no warning whose text says the method did not converge (gd/adam emit a plain UserWarning)",
+    "silence = no ConvergenceWarning and no warning whose text says the method did not converge (gd/adam emit a plain UserWarning); a run the "
+    "root solvers end with 'Jacobian inversion yielded zero vector' after the iterates overflowed counts as not converged outside the must-converge class",
     "f_tol=None means the code's default 1e-6 (root solvers / anderson_acc); the residual is re-evaluated with the same function on the "
-    "returned tensor, slack 1e-12 relative",
-    "root solvers / anderson_acc promise (AND of) |f| < f_tol, |f| < f_rtol |f(y0)| (root solvers only: anderson's reference norm is internal); "
-    "gd/adam promise no residual bound (OR-type x/f stagnation test)",
+    "returned tensor, slack 1e-12 relative (reduction order only)",
+    "root solvers / anderson_acc promise (AND of) |f| < f_tol and, root solvers only, |f| < f_rtol |f(y0)| (anderson's reference norm is internal); "
+    "gd/adam promise no residual bound (OR-type x/f stagnation test), only the objective claim",
     "minimize: phi(y) <= phi(y0) + f_tol^2/(2 sigma) + rounding for root-finding methods (strong convexity: phi(y)-phi* <= |grad|^2/(2 sigma)); "
-    "gd with step <= 1.5 (1-gamma)/lmax: phi(y) <= phi(y0) + rounding (the heavy-ball energy phi(x_k) + gamma/(2 step)|x_k-x_{k-1}|^2 is "
-    "non-increasing for step <= 2(1-gamma)/lmax and starts at phi(y0)); adam: same claim, asserted because the property states it",
-    "contractive class = y -> y - f(y) has Lipschitz constant <= 0.5 (f64/c128), default maxiter, no x_rtol/f_rtol, x_tol >= 1e-9, "
-    "f_tol >= 1e-11 sqrt(N); there every method must be silent and |y - y*| <= f_tol/sigma + 1e-10",
-    "gd in the contractive class: gamma=0, step in [0.5,1]/lmax, only x_tol active, maxiter 5000: |grad phi(y)| < x_tol/step "
-    "(y = y_prev - step grad(y_prev), |I - step H| <= 1) hence |y-y*| <= x_tol/(step sigma)",
+    "gd/adam: phi(y) <= phi(y0) + rounding for all options (the statement's claim; y0 is among the points they evaluate); rounding = 64 N eps (|phi|+lmax|y0|^2+1)",
+    "must-converge class = y -> y - f(y) has Lipschitz constant <= 0.5, f64/c128, default algorithm parameters (alpha, max_rank, line search, msize, beta, "
+    "lmbda, maxiter), no x_rtol/f_rtol, x_tol >= 1e-9, f_tol >= 1e-11 sqrt(N); broyden1/broyden2 additionally |f(y0)| >= 0.05 (their default first step has "
+    "length 0.5 max(|y0|,1) whatever the residual, SciPy's heuristic, so an already converged guess is thrown away with an inverse-Jacobian estimate of "
+    "norm 0.5 max(|y0|,1)/|f(y0)|); there every method must be silent and |y - y*| <= residual/sigma + 1e-10(1+|y*|)",
+    "gd in the class: gamma=0, step in [0.5,1]/lmax, only x_tol active, maxiter 5000: the last step had |grad phi(x_k)| < x_tol/step and "
+    "|I - step H| <= 1, the returned point has an objective no larger than x_{k+1}'s, so |y-y*|^2 <= (x_tol/(step sigma))^2 + 2 rounding/sigma "
+    "(also asserted for silent runs with tiny maxiter); adam has no derived accuracy bound and is left out of the cross-method comparison",
     "complex family: uniqueness only inside the unit ball; a returned point outside it is held to the residual test only",
     "reference solution: damped Newton with closed-form Jacobians in f64/c128, self-certified to 1e-12",
 ]
@@ -141,7 +144,7 @@ def check_one(case, prob, api, method, opts, y0, ystar, labels, g):
 
     if rec.warned:
         if must:
-            return violation("warned_in_contractive_class" + (":%s:%s:ls=%s:alpha=%s:fam=%s" % (method, case["y0"]["kind"], user_opts.get("line_search"), user_opts.get("alpha"), case["fam"]) if __import__("os").environ.get("C03_EXPLORE") else ""), "%s warned on a contractive problem (L=%.3g, sigma=%.3g, N=%d): %s; opts=%r" % (
+            return violation("warned_in_contractive_class", "%s warned on a contractive problem (L=%.3g, sigma=%.3g, N=%d): %s; opts=%r" % (
                 tag, prob.L, prob.sigma, N, rec.texts[:1], user_opts), labels), info
         return None, info
 
